@@ -145,7 +145,7 @@ func specToks(name string, decls []EDecl, optSemi bool) []PTok {
 		out = append(out, t)
 	}
 	semi(true)
-	for _, d := range decls {
+	for di, d := range decls {
 		switch d.K {
 		case "tok":
 			out = append(out, PTok{K: "TOKEN", Src: d.Name, Lx: d.Name}, punct("="))
@@ -172,7 +172,15 @@ func specToks(name string, decls []EDecl, optSemi bool) []PTok {
 					out = append(out, punct(">"))
 				}
 			}
-			semi(true)
+			if !optSemi && di+1 < len(decls) && decls[di+1].K == "tok" {
+				// handles are consumed greedily: without its semicolon the directive would take the name of the token declaration
+				// that follows as one more handle - there the semicolon is not optional
+				t := punct(";")
+				t.End = true
+				out = append(out, t)
+			} else {
+				semi(true)
+			}
 		}
 	}
 	return out
